@@ -83,8 +83,40 @@ class _SpecModule:
 def make_param(eng, st, name, ann, override=None):
     if override is not None:
         kind = override
+        if isinstance(kind, dict) and '__class__' in kind:
+            rel, cname = kind['__class__'].split('::')
+            o = Obj((rel, cname))
+            st.objs[o.oid] = {}
+            later = []
+            for an, spec in kind.items():
+                if an == '__class__':
+                    continue
+                if isinstance(spec, tuple) and spec and spec[0] == 'expr':
+                    later.append((an, spec[1]))
+                else:
+                    st.objs[o.oid][an] = make_param(eng, st, '%s.%s' % (name, an), None, spec)
+            if later:
+                fr_ = Frame(_SpecModule(), 'param:' + name, None, None)
+                fr_.spec_only = True
+                tmp = st.fork()
+                tmp.env = {name: o}
+                for an, ex in later:
+                    tmp.objs = st.objs
+                    tmp.bufs = st.bufs
+                    st.objs[o.oid][an] = eng.ev(eng.ctx.clause_ast(ex), tmp, fr_)
+            return o
         if not isinstance(kind, str):
             return kind          # concrete structural value
+        if kind == 'buf':
+            from .bufs import BufRef
+            return BufRef.of(eng.new_buf(st, name))
+        if kind.startswith('buflist'):
+            return [eng.new_buf(st, '%s%d' % (name, k)) for k in range(int(kind[7:]))]
+        if kind == 'field':
+            from .bufs import FIELD
+            return z3.Const(name, FIELD)
+        if kind == 'name':
+            return z3.Int(name)
         if kind.startswith('obj:'):
             rel, cname = kind[4:].split('::')
             o = Obj((rel, cname))
